@@ -43,7 +43,14 @@ RULE = ("dense parameter grids (cut-off/centre in [1e-3, pi-1e-3], bandwidth in 
         "Fraction where the value allows, gammatone.sampled for every eta 1..6 with zero and non-zero phase, cut-offs and centre "
         "frequencies written `f * Hz` with sHz(rate), boundary cut-offs 0 / 1e-9 / 1e-5 / pi-1e-5 / pi-1e-9 / pi (coefficients only), "
         "erb with Hz omitted on both sides of the 7 Hz refusal (7.0, the double below it, ints, Fractions), erb over list / tuple / "
-        "Stream / generator with and without an item that is refused (entry erbmap); a case is non-trivial when the "
+        "Stream / generator with and without an item that is refused (entry erbmap; a lazy result is also READ ON two items past "
+        "its end / past the refusal: StopIteration from then on, Lean erbLazyReads); "
+        "TEE HUBS (entry thub, gen_thub): every thub-based strategy (lowpass / highpass x 4, resonator x 4, comb fb / tau / ff, "
+        "gammatone.klapuri) called with Stream(*values) / number arguments, the filter objects of the result read by a schedule "
+        "(lock-step, or random order with one position running ahead): read number k of position j must be section j of the "
+        "constant design of value number k of each argument (Lean machine thubModel on the transcribed strategy bodies = "
+        "constReads, theorem thub_reads_are_constant_designs); call shapes inside histories (all-keyword, StrategyDict called "
+        "directly); a case is non-trivial when the "
         "implementation returned a filter (no exception; history: at least one instant read and no unexpected exception); "
         "distinct = distinct JSON case")
 TRUSTED = [
@@ -54,6 +61,12 @@ TRUSTED = [
     "gammatone_erb_constants are compared within 4 ulp of the largest coefficient (measured on this machine: bit-exact, histogram "
     "coef_ulp; the 4 ulp leave room for another libm); gammatone.sampled / slaney sections are divided by a MEASURED gain "
     "(abs(freq_response)) and are compared up to one common factor within 1e-9 + 64 ulp * condition number",
+    "tee hubs (ALV/Model/C13Thub.lean): the strategy bodies are transcribed by hand as programs over iterator objects (one leaf "
+    "per use of a parameter / intermediate Stream: the caller's argument itself, or copy c of hub h); itertools.tee is trusted "
+    "(a hub copy at position k yields item k of the hub's source), valid when the hub is the only reader of its source - the "
+    "static ownership conditions are the executable check wfDesign, proved for every program (thub_programs_wellformed) and "
+    "returned by the driver; Poly / ZFilter's own hubs (a Stream scalar times a k-term polynomial takes k copies) are folded "
+    "into the programs; the python side reads filt.numdict / filt.dendict of each filter object of the result",
     "call shapes: which python call a case stands for (strategy lookup, positional / keyword, omitted parameters, numeric type) is "
     "built by harness/props/c13.py:_real_call; the Lean side sees only which parameters are absent (ALV/Model/C13Call.lean) - that "
     "`lowpass.pole`, `lowpass['pole']` and an alias are the same function object is StrategyDict's job (extra checks alias:*)",
@@ -108,13 +121,17 @@ ASSUMPTIONS = [
     "freq_response evaluation (sum|c_k| / |sum c_k z^k|); for gammatone.sampled with eta >= 5 at centre frequencies "
     "within ~1e-2 of 0 or pi rounding dominates and the unit-gain check becomes vacuous (histogram gammatone_gain_tolerance)",
 ]
-MANIFEST = {"text": "Lean 4 theorems (72, no sorry/axiom, no PENDING statement) over R about the generic [TrigField] design "
+MANIFEST = {"text": "Lean 4 theorems (83, no sorry/axiom, no PENDING statement) over R about the generic [TrigField] design "
                     "definitions the driver runs at Float: lowpass/highpass gains, half power, monotonicity, pole radii (8 strategies); "
                     "resonators: unit gain, stability, pole radius exp(-bw/2), for z_exp exactly on |cos f| <= 1/cosh(bw/2) (iff; outside "
                     "it a real pole of larger modulus: recorded finding); combs = their difference equations; gammatone slaney / klapuri / "
                     "sampled: EVERY section has unit gain at the centre frequency and poles A e^{+-jf}, A = e^{-bw} < 1 - for sampled for "
                     "every order eta and phase (the numerator after eta-1 passes of ZFilter.diff(mul_after=-z) in closed form with "
-                    "Eulerian polynomials; it never vanishes at e^{jf}); histories of designs sharing parameter objects; the calls with "
+                    "Eulerian polynomials; it never vanishes at e^{jf}); histories of designs sharing parameter objects; Stream-valued arguments at the level of the strategy bodies: a "
+                    "machine over iterator objects (argument / tee-hub copy) run on the transcribed bodies, for every schedule of reads = "
+                    "the constant design of the instant's values (all 16 thub-based strategies), klapuri's four sections are distinct "
+                    "objects, an aliased pair shows the NEXT instant, number arguments make any sharing harmless; poles exist "
+                    "(lowpass / highpass except z at pi/2, resonators), every gammatone section stable; the calls with "
                     "omitted parameters / default strategies (Option-valued call model), erb closed forms / units / monotonicity / Hz=None "
                     "refusal / elementwise mapping, gammatone_erb_constants closed form and 3 dB identity, the time-domain run the driver "
                     "evaluates (runFilter over C04.fspec) = the comb recursions pointwise incl. n < delay; tied to /repo by a "
